@@ -194,6 +194,12 @@ class Ctx:
     def broken(self, msg):
         raise Broken(msg)
 
+    def unknown(self, msg):
+        """a construct the rule cannot interpret: analysis broken (exit 2) unless something else is a violation;
+        the rule goes on"""
+        if msg not in self.broken_msgs:
+            self.broken_msgs.append(msg)
+
     def step(self, fn, *a, **kw):
         """run one rule; a rule that finds its anchor gone / shape unrecognisable
         is recorded as broken and the other rules still run"""
